@@ -70,7 +70,7 @@ Lemma X_step f : IH P n0 f -> X_ P n0 (S f).
 Proof.
   intros [HE [HEL [HX [HXL _]]]] r s st o r' st' c G' Hv Hk Hok Hchk Hev.
   pose proof Hv as [Hen Hst].
-  destruct s as [ln x T e | ln t e | ln a b | ln e | ln cnd th el | ln e | ln e]; simpl in Hev, Hchk.
+  destruct s as [ln x T e | ln t e | ln a b | ln e | ln cnd th el | ln e | ln e | ln x T t e | ln t]; simpl in Hev, Hchk.
   - (* SLet *)
     inversion Hchk as [[Hce HG]]; clear Hchk.
     destruct (eval f P r (depth c) e st) as [[v st1]|] eqn:Ha; [|discriminate].
@@ -152,6 +152,33 @@ Proof.
     split; auto. split; auto. split; auto.
     split; [apply Hk1|]. split; [apply Hk1|]. split; [eapply env_ok_mono; [apply (st_ty _ _ _ S1)|exact Hok]|simpl; auto].
   - (* SEmit: an impure operation under the strict rule *)
+    inversion Hchk as [[Hce HG]]; clear Hchk. apply app_nil_inv in Hce. destruct Hce as [_ Ho].
+    rewrite Hst in Ho. exfalso. eapply observe_nil; eauto.
+  - (* SLet2: let x <- t <- e *)
+    inversion Hchk as [[Hce HG]]; clear Hchk. apply app_nil_inv in Hce. destruct Hce as [Hce Hva].
+    destruct (eval_lv st r t) as [[lp0 via0]|] eqn:Hlv0; [|discriminate].
+    destruct (read_lv st lp0) as [old|] eqn:Hrd; [|discriminate].
+    pose proof (read_vok P _ _ _ (co_cells _ _ _ _ _ Hk) Hrd) as Vold.
+    destruct (eval f P r (depth c) e st) as [[v st1]|] eqn:Ha; [|discriminate].
+    destruct (HE _ _ _ _ _ _ _ Hv Hk Hce Ha) as [S1 [C1 V1]].
+    pose proof (ctxok_step _ _ _ _ _ _ Hk S1 C1) as Hk1.
+    pose proof (env_ok_mono _ _ _ _ _ _ (st_ty _ _ _ S1) Hok) as Hok1.
+    destruct (eval_lv st1 r t) as [[lp via]|] eqn:Hlv; [|discriminate].
+    pose proof (assign_fresh _ _ _ _ _ _ _ Hen Hst C1 Hok1 Hva Hlv) as Hfr.
+    destruct (write st1 lp v) as [st2|] eqn:Hw; [|discriminate].
+    destruct (write_ok P n0 _ _ _ _ C1 Hw V1 Hfr) as [S2 C2].
+    pose proof (ctxok_step _ _ _ _ _ _ Hk1 S2 C2) as Hk2.
+    pose proof (step_trans _ _ _ _ S1 S2) as S12.
+    assert (Vold2 : vok st2 old) by (eapply vok_mono; [apply (st_ty _ _ _ S12)|exact Vold]).
+    destruct (bind_var st2 r (depth c) x T old) as [[r1 st3]|] eqn:Hb; [|discriminate]. inversion Hev; subst; clear Hev.
+    destruct (bind_var_ok P n0 _ _ _ _ _ _ _ _ C2 (co_len _ _ _ _ _ Hk2) Vold2 Hb) as [S3 [C3 [Hr1 Hcell]]].
+    destruct (env_ext n0 st2 st' r (depth c) (depth c) x T (scdepth c) (ininit c) (st_ty _ _ _ S3) (co_len _ _ _ _ _ Hk2) Hcell
+                (co_fun _ _ _ _ _ Hk2) (co_le _ _ _ _ _ Hk2) (Nat.le_refl _) (env_ok_mono _ _ _ _ _ _ (st_ty _ _ _ S12) Hok))
+      as [F3 [L3 O3]].
+    rewrite <- Hr1 in F3, L3, O3.
+    split; [eapply step_trans; eauto|]. split; auto. split; [rewrite Hr1; reflexivity|].
+    split; auto. split; auto. split; auto. simpl; auto.
+  - (* SRemove: an impure operation under the strict rule *)
     inversion Hchk as [[Hce HG]]; clear Hchk. apply app_nil_inv in Hce. destruct Hce as [_ Ho].
     rewrite Hst in Ho. exfalso. eapply observe_nil; eauto.
 Qed.
